@@ -74,7 +74,7 @@ fn c15_slice_key_of_top_offset() {
 // @cost 48
 // @timeout 1200
 // @needs K1 K2
-// @desc flush_top_table and flush_meta_generic (whole bodies, awaited calls shimmed) on a refcount table with up to 2 dirty entries: every write they issue for the top table starts at table_offset + (idx << block_bits), is exactly one block long, block aligned, lies inside the table and covers a dirtied entry; flush_meta_generic flushes the child slices of exactly that block's entries first, fsyncs iff something was flushed, and reports done only when no dirty block is left
+// @desc flush_top_table (whole body, awaited calls shimmed; flush_meta_generic is decided by c16_top_table_flush_generic) on a refcount table with up to 2 dirty entries: every write they issue for the top table starts at table_offset + (idx << block_bits), is exactly one block long, block aligned, lies inside the table and covers a dirtied entry; flush_meta_generic flushes the child slices of exactly that block's entries first, fsyncs iff something was flushed, and reports done only when no dirty block is left
 // @bounds 512-byte and 1 KiB blocks symbolic; table of 2 KiB (256 entries); dirty entries: 2 arbitrary indices; table offset any cluster-aligned value
 // @funcs Qcow2Dev::flush_top_table Qcow2Dev::flush_meta_generic Table::pop_dirty_blk_idx Table::set_dirty
 // @stub alloc::fmt::format -> String::new()
@@ -94,53 +94,81 @@ fn c16_top_table_flush() {
     kani::assume(i0 < 256 && i1 < 256);
     rt.set_refblock_offset(i0, 0x1000);
     rt.set_refblock_offset(i1, 0x2000);
-    let which: bool = kani::any();
     let bsz = 1u64 << bs;
-    if which {
-        let r = env.seg_k1(&rt);
-        assert!(r.is_ok());
-        let n = env.nrec.get();
-        let same_blk = (i0 * 8) >> bs == (i1 * 8) >> bs;
-        assert!(n == if same_blk { 1 } else { 2 });
-        let mut k = 0;
-        while k < 2 {
-            if k < n {
-                let w = env.get_rec(k);
-                assert!(w.kind == K_BACKEND_WRITE && w.len as u64 == bsz);
-                assert!(w.off % bsz == 0 && w.off >= toff && w.off + bsz <= toff + 2048);
-                let lo = w.off - toff;
-                let cov = |i: usize| (i as u64) * 8 >= lo && (i as u64) * 8 + 8 <= lo + bsz;
-                assert!(cov(i0) || cov(i1));
-            }
-            k += 1;
+    let r = env.seg_k1(&rt);
+    assert!(r.is_ok());
+    let n = env.nrec.get();
+    let same_blk = (i0 * 8) >> bs == (i1 * 8) >> bs;
+    assert!(n == if same_blk { 1 } else { 2 });
+    let mut k = 0;
+    while k < 2 {
+        if k < n {
+            let w = env.get_rec(k);
+            assert!(w.kind == K_BACKEND_WRITE && w.len as u64 == bsz);
+            assert!(w.off % bsz == 0 && w.off >= toff && w.off + bsz <= toff + 2048);
+            let lo = w.off - toff;
+            let cov = |i: usize| (i as u64) * 8 >= lo && (i as u64) * 8 + 8 <= lo + bsz;
+            assert!(cov(i0) || cov(i1));
         }
-        assert!(rt.pop_dirty_blk_idx(None).is_none());
-        kani::cover!(n == 2);
-        kani::cover!(n == 1);
-        core::mem::forget(r);
-    } else {
-        env.cache_dirty.set(kani::any());
-        let r = env.seg_k2(&rt, |off| env.seg_k0_rb(off));
-        assert!(matches!(r, Ok(false))); // a dirty block was handled: not done yet
-        let n = env.nrec.get();
-        // flush_cache(window) [, fsync] , write of the block
-        let fc = env.get_rec(0);
-        assert!(fc.kind == K_FLUSH_CACHE);
-        let w = env.get_rec(n - 1);
-        assert!(w.kind == K_BACKEND_WRITE && w.len as u64 == bsz && w.off % bsz == 0);
-        assert!(w.off >= toff && w.off + bsz <= toff + 2048);
-        let blk = (w.off - toff) >> bs;
-        assert!(fc.off as usize == env.seg_k0_rb(blk << bs) && fc.len == env.seg_k0_rb((blk + 1) << bs));
-        if env.cache_dirty.get() {
-            // whole-file sync between the child slices and the parent block
-            assert!(n == 3 && env.get_rec(1).kind == K_FSYNC && env.get_rec(1).off == 0 && env.get_rec(1).len == usize::MAX);
-        } else {
-            assert!(n == 2);
-        }
-        kani::cover!(n == 3);
-        kani::cover!(n == 2);
-        core::mem::forget(r);
+        k += 1;
     }
+    assert!(rt.pop_dirty_blk_idx(None).is_none());
+    kani::cover!(n == 2);
+    kani::cover!(n == 1);
+    core::mem::forget(r);
+    core::mem::forget(env);
+}
+
+// @harness c16_top_table_flush_generic
+// @props C16 C15 C02 C04
+// @tier quick
+// @cost 48
+// @timeout 1200
+// @needs K1 K2
+// @desc flush_meta_generic (whole body, awaited calls shimmed) on a refcount table with up to 2 dirty entries: every write they issue for the top table starts at table_offset + (idx << block_bits), is exactly one block long, block aligned, lies inside the table and covers a dirtied entry; flush_meta_generic flushes the child slices of exactly that block's entries first, fsyncs iff something was flushed, and reports done only when no dirty block is left
+// @bounds 512-byte and 1 KiB blocks symbolic; table of 2 KiB (256 entries); dirty entries: 2 arbitrary indices; table offset any cluster-aligned value
+// @funcs Qcow2Dev::flush_top_table Qcow2Dev::flush_meta_generic Table::pop_dirty_blk_idx Table::set_dirty
+// @stub alloc::fmt::format -> String::new()
+#[kani::proof]
+#[kani::unwind(5)]
+#[kani::stub(std::fmt::format, fmt_stub2)]
+fn c16_top_table_flush_generic() {
+    let bs: u8 = kani::any();
+    kani::assume(bs >= 9 && bs <= 10);
+    let info = crate::meta::verif_header::mk_info(12, 4, 1u64 << 40, bs, Some((12, 8192)), Some((12, 8192)), false, false, false);
+    let env = KEnv::new(info);
+    let toff: u64 = kani::any();
+    kani::assume(toff & 0xfff == 0 && toff >> 56 == 0);
+    let mut rt = RefTable::new(Some(toff), 2048, bs);
+    let i0: usize = kani::any();
+    let i1: usize = kani::any();
+    kani::assume(i0 < 256 && i1 < 256);
+    rt.set_refblock_offset(i0, 0x1000);
+    rt.set_refblock_offset(i1, 0x2000);
+    let bsz = 1u64 << bs;
+    env.cache_dirty.set(kani::any());
+    let r = env.seg_k2(&rt, |off| env.seg_k0_rb(off));
+    assert!(matches!(r, Ok(false))); // a dirty block was handled: not done yet
+    let n = env.nrec.get();
+    // flush_cache(window) [, fsync] , write of the block
+    let fc = env.get_rec(0);
+    assert!(fc.kind == K_FLUSH_CACHE);
+    let w = env.get_rec(n - 1);
+    assert!(w.kind == K_BACKEND_WRITE && w.len as u64 == bsz && w.off % bsz == 0);
+    assert!(w.off >= toff && w.off + bsz <= toff + 2048);
+    let blk = (w.off - toff) >> bs;
+    assert!(fc.off as usize == env.seg_k0_rb(blk << bs) && fc.len == env.seg_k0_rb((blk + 1) << bs));
+    if env.cache_dirty.get() {
+        // whole-file sync between the child slices and the parent block
+        assert!(n == 3);
+        let fs = env.get_rec(1);
+        assert!(fs.kind == K_FSYNC && fs.off == 0 && fs.len == usize::MAX);
+    } else {
+        assert!(n == 2);
+    }
+    kani::cover!(n == 3);
+    kani::cover!(n == 2);
+    core::mem::forget(r);
     core::mem::forget(env);
 }
 
